@@ -136,6 +136,18 @@ func (l *v01Log) count(kind, label string) int {
 	return n
 }
 
+func (l *v01Log) countConn(kind string, conn int) int {
+	l.mu.Lock()
+	defer l.mu.Unlock()
+	n := 0
+	for _, e := range l.evs {
+		if e.Kind == kind && e.Conn == conn {
+			n++
+		}
+	}
+	return n
+}
+
 func v01RenderLog(evs []v01Ev, max int) string {
 	var b strings.Builder
 	for i, e := range evs {
@@ -460,9 +472,10 @@ type v01Client struct {
 	qc  *quic.Conn
 	h3  *http3.ClientConn
 
-	mu     sync.Mutex
-	dgrams [][]byte
-	rxDone chan struct{}
+	mu        sync.Mutex
+	dgrams    [][]byte
+	rxDone    chan struct{}
+	closeOnce sync.Once
 }
 
 // v01Dial opens one raw connection. An error means the environment failed (handshake
@@ -510,14 +523,20 @@ func v01Dial(e *v01Env, idx int) (*v01Client, error) {
 }
 
 func (c *v01Client) Close() {
-	_ = c.qc.CloseWithError(0x100, "")
-	select {
-	case <-c.rxDone:
-	case <-time.After(5 * time.Second):
-	}
-	_ = c.tr.Close()
-	_ = c.udp.Close()
+	c.closeOnce.Do(func() {
+		_ = c.qc.CloseWithError(0x100, "")
+		select {
+		case <-c.rxDone:
+		case <-time.After(5 * time.Second):
+		}
+		_ = c.tr.Close()
+	})
 }
+
+// release frees the UDP socket. It is kept bound until the end of the case so that a
+// later connection of the same case can never get the same local address (log
+// entries are attributed to connections by that address).
+func (c *v01Client) release() { _ = c.udp.Close() }
 
 func (c *v01Client) dead() bool { return c.qc.Context().Err() != nil }
 
